@@ -2,12 +2,14 @@
    Property theorems only: each is the full statement, closed by `exact`, followed by Print Assumptions. *)
 Require Import Coq.Lists.List.
 Require Import Coq.NArith.NArith.
+Require Import Urcu.Base.Lin.
 Require Import Urcu.Base.MachE.
 Require Import Urcu.Wfcq.Wfcq.
 Require Import Urcu.Wfcq.WfcqInv.
 Require Import Urcu.Wfcq.WfcqProof5.
 Require Import Urcu.Wfcq.WfcqRun.
 Require Import Urcu.Wfcq.WfcqInit.
+Require Import Urcu.Wfcq.WfcqLin.
 Require Import Urcu.Gen.Generated.
 Import ListNotations.
 
@@ -30,6 +32,24 @@ Theorem C10_chain_invariant_from_init :
     Inv (fst (grun cs (init_state threads, []))) (snd (grun cs (init_state threads, []))).
 Proof. exact (@Urcu.Wfcq.WfcqInit.wfcq_chain_from_init). Qed.
 Print Assumptions C10_chain_invariant_from_init.
+
+(* every history of enqueues (with their was-non-empty answer) and blocking dequeues, any number of enqueuers, every schedule and flush order, is accepted by the FIFO automaton with linearisation points read off the event trace (tail exchange; tail load seeing the sentinel; head store / successful tail cmpxchg): legal FIFO order agreeing with every thread's calls and results *)
+Theorem C10_linearizable_fifo :
+    forall threads : nat -> list wop,
+    only_deq (threads 0) ->
+    (forall t : nat, t <> 0 -> only_enq (threads t)) ->
+    (forall (t : nat) (n : N), In n (enqs (threads t)) -> (2 <= n)%N) ->
+    (forall (t u : nat) (n : N), In n (enqs (threads t)) -> In n (enqs (threads u)) -> t = u) ->
+    (forall t : nat, NoDup (enqs (threads t))) ->
+    forall cs : list choice,
+    exists (a' : ast) (L : list (op wop N)),
+    runl a0 (gtrace cs (init_state threads, [])) = Some (a', L) /\
+    legal wop N (list N) wspec [] L /\
+    (forall t : nat,
+    tops wop N t L =
+    hcomp wop N t None (gtrace cs (init_state threads, [])) ++ pre wop N (pm wop N (list N) a' t)).
+Proof. exact (@Urcu.Wfcq.WfcqLin.wfcq_linearizable). Qed.
+Print Assumptions C10_linearizable_fifo.
 
 (* model constant = WFCQ_ADAPT_ATTEMPTS extracted from the source *)
 Theorem C10_adapt_attempts_is_source_constant :
